@@ -173,6 +173,25 @@ pub fn run(ctx: &Ctx) -> Report {
     }
     let st = explore(&ctx.pool, jobs, j);
     rep.part("more files than RLIMIT_NOFILE=1024 allows to hold open", st, serde_json::json!({}));
+    // depth instead of width: one file per level of a 300-level chain
+    let mut jobs = vec![];
+    for d in drivers() {
+        let mut t = vec![Entry::dir("src")];
+        let mut p = String::from("src");
+        for _ in 0..300 {
+            p.push_str("/d");
+            t.push(Entry::dir(&p));
+            t.push(Entry::file(&format!("{}/f", p), "x"));
+        }
+        let s = Arc::new(Scenario::new(&format!("fds-deep-{}-w2-n300", d), t, &["-r", "--driver", d, "-w", "2", "src", "dst"]));
+        let os = orders(d, 2);
+        for mut sp in [RunSpec::base(Policy::P0), RunSpec::base(Policy::P1), RunSpec::base(Policy::Prio(os[0].clone())), RunSpec::base(Policy::Prio(os.last().unwrap().clone()))] {
+            sp.step_limit = 3_000_000;
+            jobs.push((s.clone(), sp, 0usize));
+        }
+    }
+    let st = explore(&ctx.pool, jobs, j);
+    rep.part("a 300-level deep tree (descriptors must not grow with depth either)", st, serde_json::json!({"depth": 300}));
     if !q {
         // one deviation around the worst order at n=140
         let mut jobs = vec![];
